@@ -463,10 +463,14 @@ func (fo *folder) foldStmt(s ast.Stmt, within *ast.FuncDecl) ([]ast.Stmt, bool) 
 	body := cl.node(hd.Body).(*ast.BlockStmt)
 	// named results of the helper become locals of the copy
 	var named []ast.Expr
+	var namedTypes []ast.Expr
+	var namedOrig []types.Object
 	if hd.Type.Results != nil {
 		for _, fl := range hd.Type.Results.List {
 			for _, nm := range fl.Names {
 				named = append(named, cl.node(nm).(ast.Expr))
+				namedTypes = append(namedTypes, cl.node(fl.Type).(ast.Expr))
+				namedOrig = append(namedOrig, fo.info.Defs[nm])
 			}
 		}
 	}
@@ -502,9 +506,9 @@ func (fo *folder) foldStmt(s ast.Stmt, within *ast.FuncDecl) ([]ast.Stmt, bool) 
 			tok = token.ASSIGN
 		}
 	}
-	if !tail && tok == token.DEFINE && len(targets) > 0 {
-		// `u, err := h()` where every return of h yields the same local at a slot (`return nil, err` … `return x, err`):
-		// the caller's new variable is that local from now on
+	if !tail && len(targets) > 0 {
+		// `u, err := h()` (or `err = h()`) where every return of h yields the same local at a slot (`return nil, err` …
+		// `return x, err`): the caller's variable and that local are one variable from now on
 		slot := make([]map[types.Object]bool, len(targets))
 		okSlots := true
 		ast.Inspect(body, func(x ast.Node) bool {
@@ -512,14 +516,14 @@ func (fo *folder) foldStmt(s ast.Stmt, within *ast.FuncDecl) ([]ast.Stmt, bool) 
 			case *ast.FuncLit:
 				return false
 			case *ast.ReturnStmt:
-				if len(r.Results) != len(targets) {
-					if len(r.Results) != 0 {
-						// a multi-valued call: says nothing about the slots
-						return true
-					}
-					return true
+				results := r.Results
+				if len(results) == 0 && len(named) == len(targets) {
+					results = named // bare return of named results
 				}
-				for j, e := range r.Results {
+				if len(results) != len(targets) {
+					return true // a multi-valued call: says nothing about the slots
+				}
+				for j, e := range results {
 					if slot[j] == nil {
 						slot[j] = map[types.Object]bool{}
 					}
@@ -547,20 +551,48 @@ func (fo *folder) foldStmt(s ast.Stmt, within *ast.FuncDecl) ([]ast.Stmt, bool) 
 			for o := range slot[j] {
 				neu = o
 			}
-			old := fo.info.Defs[tid]
-			if neu == nil || old == nil {
+			if neu == nil {
 				continue
 			}
 			if _, isParam := cl.subst[neu]; isParam {
 				continue
 			}
-			ast.Inspect(within.Body, func(x ast.Node) bool {
-				if id, ok := x.(*ast.Ident); ok && fo.info.Uses[id] == old {
-					fo.info.Uses[id] = neu
+			if tok == token.DEFINE {
+				old := fo.info.Defs[tid]
+				if old == nil {
+					continue
 				}
-				return true
-			})
-			fo.info.Defs[tid] = neu
+				ast.Inspect(within.Body, func(x ast.Node) bool {
+					if id, ok := x.(*ast.Ident); ok && fo.info.Uses[id] == old {
+						fo.info.Uses[id] = neu
+					}
+					return true
+				})
+				fo.info.Defs[tid] = neu
+			} else {
+				// plain assignment to an existing variable of the caller: the copy's local becomes that variable
+				callerObj := fo.info.Uses[tid]
+				if callerObj == nil {
+					continue
+				}
+				ast.Inspect(body, func(x ast.Node) bool {
+					if id, ok := x.(*ast.Ident); ok {
+						if fo.info.Uses[id] == neu {
+							fo.info.Uses[id] = callerObj
+						}
+						if fo.info.Defs[id] == neu {
+							fo.info.Defs[id] = callerObj
+						}
+					}
+					return true
+				})
+				for k, nm := range named {
+					if id := identOf(nm); id != nil && (fo.info.Defs[id] == neu || fo.info.Uses[id] == neu) {
+						fo.info.Defs[id] = callerObj
+						_ = k
+					}
+				}
+			}
 		}
 	}
 	if !tail {
@@ -616,6 +648,14 @@ func (fo *folder) foldStmt(s ast.Stmt, within *ast.FuncDecl) ([]ast.Stmt, bool) 
 		if bare {
 			return nil, false
 		}
+	}
+	// named results that were not identified with a variable of the caller are locals of the copy: declare them there
+	for i, nm := range named {
+		id := identOf(nm)
+		if id == nil || id.Name == "_" || fo.info.Defs[id] != namedOrig[i] || namedOrig[i] == nil {
+			continue
+		}
+		prologue = append(prologue, &ast.DeclStmt{Decl: &ast.GenDecl{Tok: token.VAR, TokPos: id.Pos(), Specs: []ast.Spec{&ast.ValueSpec{Names: []*ast.Ident{id}, Type: namedTypes[i]}}}})
 	}
 	fo.folded[f]++
 	out := append(prologue, stmts...)
